@@ -13,6 +13,7 @@ RULE = ("NetSpecs from the full lattice (blocking, pre-emption incl. reroute, re
         "record leaves the system.  Non-trivial: >= 5 customers with >= 2 records and >= 1 customer with a blocked, interrupted or "
         "reneged hop; distinct by spec digest.")
 ASSUMPTIONS = ["a customer moves at most one hop per event (location changes are observed after every event)"]
+TECHNIQUE = "property-based testing: generated networks; the monitor reconstructs each customer's journey from observed locations and audits the record chain against it"
 WALL = {"quick": 150, "thorough": 540}
 
 
